@@ -158,7 +158,7 @@ def run(ctx):
         c.setdefault("hr", [])
     byid = {c["id"]: c for c in cases}
     ctx.sample({k: v for k, v in cases[0].items() if k in ("id", "kind", "payload", "text")})
-    bad = ctx.validate("addr/C09Cases.tla", cases, "C09Cases.cfg", timeout=3000, per_shard_min=60)
+    bad = ctx.validate("addr/C09Cases.tla", cases, "C09Cases.cfg", timeout=7200, per_shard_min=60)
     for cid, why in bad.items():
         c = byid[cid]
         extra = ":%s:%s" % (c.get("net", ""), c.get("tkind", "")) if c["kind"] == "template" else ""
